@@ -107,4 +107,4 @@ def run(ctx: common.Ctx):
     all_recs = tables.pmap(chunk_worker, chunks, workers=8, chunk=1)
     all_recs = [r if isinstance(r, list) else [r] for r in all_recs]
     from .c01 import report
-    report(ctx, [r for rs in all_recs for r in rs if isinstance(r, tables.Crashed) or r["cases"]], "C16")
+    report(ctx, [r for rs in all_recs for r in rs if isinstance(r, (tables.Crashed, tables.WorkerError)) or r["cases"]], "C16")
